@@ -502,7 +502,9 @@ void h_the_thief(void) {
    monotonicity are supplied where an entry is read. */
 typedef struct task task;
 struct aslot { size_t head, tail, my_task_pool_size; task **task_pool_ptr; bool published, locked; };
+#ifndef NMAX
 #define NMAX ((size_t)1 << 12)
+#endif
 #define TASKPTR(i) ((task *)(((uintptr_t)(i) + 1) << 4))
 #define TIDX(p) ((size_t)(((uintptr_t)(p)) >> 4) - 1)
 static bool *g_hole0, g_written_w; static size_t *g_cnt; static task **g_old, **g_new; static size_t g_oldcap, g_newcap, g_H, g_T, g_k, g_pos, g_w; static bool g_inplace, g_freed_old; int g_allocs;
@@ -513,12 +515,18 @@ static void slot_release_task_pool(struct aslot *s) { s->locked = false; }
 static void slot_publish_task_pool(struct aslot *s) { __CPROVER_assert(!s->published && s->head < s->tail, "C01.reloc: publish only a non-empty unpublished pool"); s->published = true; }
 static bool slot_is_task_pool_published(struct aslot *s) { return s->published; }
 static bool slot_is_local_task_pool_quiescent(struct aslot *s) { return !s->published || s->locked; }
-static task **STUB_cache_aligned_allocate(size_t bytes) { g_allocs++; g_newcap = bytes / sizeof(task *); g_new = malloc(bytes); __CPROVER_assume(g_new != NULL); g_inplace = false; return g_new; }
+static task **STUB_cache_aligned_allocate(size_t bytes) {
+#ifdef RELOC_INPLACE
+    __CPROVER_assume(0);   /* case split: this job covers the executions that compact in place; the twin job covers the ones that allocate */
+#endif
+    g_allocs++; g_newcap = bytes / sizeof(task *); g_new = malloc(bytes); __CPROVER_assume(g_new != NULL); g_inplace = false; return g_new; }
 static void STUB_cache_aligned_deallocate(task **p) { __CPROVER_assert(p == g_old && !g_inplace && !g_freed_old, "C01.reloc: exactly the replaced array is freed, once, and never the array still in use"); g_freed_old = true; }
 static task *pool_rd(task **vp, size_t i) {
     __CPROVER_assert(vp == g_old && !g_freed_old, "C01.reloc: tasks are read from the old array while it is alive");
     __CPROVER_assert(i >= g_H && i < g_T && i < g_oldcap, "C01.reloc: only [head, tail) of the old array is read");
+#ifndef RELOC_ORDER
     __CPROVER_assert(!(g_inplace && i == g_w && g_written_w), "C01.reloc: in-place compaction never reads a cell it has already overwritten");
+#endif
     __CPROVER_assume(g_cnt[i + 1] == g_cnt[i] + (g_hole0[i] ? 0 : 1) && g_cnt[i + 1] <= g_cnt[g_T] && g_cnt[i] <= i - g_H);     /* definition of the prefix count, instance i */
     return g_hole0[i] ? NULL : TASKPTR(i);
 }
@@ -531,13 +539,15 @@ static void pool_wr(task **vp, size_t i, task *v) {
 size_t g_j1, g_j2; task *g_spawned;
 #define LIVE(i) ((i) >= g_H && (i) < g_T && !g_hole0[i])
 #define LOOP_prepare_task_pool_1 __CPROVER_assigns(i, new_size) __CPROVER_loop_invariant(i >= H && i <= T && new_size == num_tasks + g_cnt[i]) __CPROVER_decreases(T - i)
+#ifdef RELOC_ORDER   /* case split of the PROOF (not of the executions): this job carries the facts about what the new pool holds (nothing invented, order kept) */
+#define INV_LOST 1
+#define INV_ORDER (g_j1 < T1 ? (g_new[g_j1] != NULL && LIVE(TIDX(g_new[g_j1])) && TIDX(g_new[g_j1]) < i && g_cnt[TIDX(g_new[g_j1])] == g_j1) : 1)
+#else                /* ... and this one the facts about where every old task went (nothing lost) and that in-place compaction reads no overwritten cell */
+#define INV_LOST (((g_k < i && LIVE(g_k)) ? (g_pos < T1 && g_new[g_pos] == TASKPTR(g_k)) : 1) && ((g_inplace && g_written_w) ? g_w < T1 : 1))
+#define INV_ORDER 1
+#endif
 #define LOOP_prepare_task_pool_2 __CPROVER_assigns(i, T1, g_pos, __CPROVER_object_whole(g_new), g_written_w) \
-  __CPROVER_loop_invariant(i >= H && i <= T && T1 == g_cnt[i] && T1 <= i - H \
-     && ((g_k < i && LIVE(g_k)) ? (g_pos < T1 && g_new[g_pos] == TASKPTR(g_k)) : 1) \
-     && (g_j1 < T1 ? (g_new[g_j1] != NULL && LIVE(TIDX(g_new[g_j1])) && TIDX(g_new[g_j1]) < i) : 1) \
-     && ((g_j1 < g_j2 && g_j2 < T1) ? TIDX(g_new[g_j1]) < TIDX(g_new[g_j2]) : 1) \
-     && (g_j2 < T1 ? (g_new[g_j2] != NULL && LIVE(TIDX(g_new[g_j2])) && TIDX(g_new[g_j2]) < i) : 1) \
-     && ((g_inplace && g_written_w) ? g_w < T1 : 1)) \
+  __CPROVER_loop_invariant(i >= H && i <= T && T1 == g_cnt[i] && T1 <= i - H && INV_LOST && INV_ORDER) \
   __CPROVER_decreases(T - i)
 #define LOOP_allocate_task_pool_1
 #include "relocate.inc"
@@ -549,22 +559,28 @@ static void mk_pool(struct aslot *s) {
     g_new = g_old; g_newcap = g_oldcap; g_inplace = true; g_freed_old = false; g_allocs = 0;
     g_H = IN_head = s->head = nondet_size_t(); g_T = IN_tail = s->tail = nondet_size_t(); __CPROVER_assume(g_H <= g_T && g_T <= g_oldcap);
     s->my_task_pool_size = g_oldcap; s->task_pool_ptr = g_old; s->published = nondet_bool(); s->locked = false;
-    g_k = nondet_size_t(); g_w = nondet_size_t(); g_j1 = nondet_size_t(); g_j2 = nondet_size_t(); g_pos = nondet_size_t(); __CPROVER_assume(g_k < g_oldcap && g_w < g_oldcap && g_j1 < g_j2);
+    g_k = nondet_size_t(); g_w = nondet_size_t(); g_j1 = nondet_size_t(); g_j2 = nondet_size_t(); g_pos = nondet_size_t(); __CPROVER_assume(g_k < g_oldcap && g_w < g_oldcap);
     __CPROVER_assume(g_cnt[g_H] == 0 && g_cnt[g_T] <= g_T - g_H);
 }
 void h_prepare(void) {
     struct aslot s; mk_pool(&s); size_t num = IN_num = nondet_size_t(); __CPROVER_assume(num >= 1 && num <= NMAX);
     bool live_k = LIVE(g_k);
     size_t r = slot_prepare_task_pool(&s, num);
+#ifdef RELOC_ALLOC
+    __CPROVER_assume(g_allocs >= 1);
+#endif
     OBLIGATION(!s.locked, "C01.reloc: the pool lock is released");
     OBLIGATION(r + num <= s.my_task_pool_size && s.my_task_pool_size == g_newcap && s.task_pool_ptr == g_new, "C01.reloc: the pool returned has room for the tasks about to be spawned, and its recorded size is the size of the array in use");
     OBLIGATION(s.tail == r, "C01.reloc: the returned position is the new tail");
     if (g_allocs == 0 && r == g_T && s.head == g_H) { OBLIGATION(g_new == g_old, "C01.reloc: nothing moved when there was room"); }
     else {
         OBLIGATION(s.head == 0 && r == g_cnt[g_T], "C01.reloc: after relocation the pool is [0, number of live tasks)");
+#ifndef RELOC_ORDER
         OBLIGATION(!live_k || (g_pos < r && g_new[g_pos] == TASKPTR(g_k)), "C01.once: every task that was in [head, tail) is in the relocated pool - nothing is lost");
+#else
         OBLIGATION(!(g_j1 < r) || (g_new[g_j1] != NULL && LIVE(TIDX(g_new[g_j1]))), "C01.once: the relocated pool holds only tasks that were in [head, tail) - nothing is invented, no holes");
-        OBLIGATION(!(g_j2 < r) || TIDX(g_new[g_j1]) < TIDX(g_new[g_j2]), "C01.once: the relocated pool keeps the tasks in order, each exactly once (strictly increasing origin)");
+        OBLIGATION(!(g_j1 < r) || g_cnt[TIDX(g_new[g_j1])] == g_j1, "C01.once: entry j of the relocated pool is the live task that has exactly j live tasks before it - origins strictly increase with j: order kept, no task twice");
+#endif
         OBLIGATION(g_allocs <= 1 && (g_allocs == 1) == g_freed_old, "C01.reloc: the old array is freed exactly when it was replaced");
     }
     VACUITY_END();
@@ -573,6 +589,9 @@ void h_spawn(void) {
     struct aslot s; mk_pool(&s); bool live_k = LIVE(g_k); bool pub0 = s.published; g_spawned = (task *)(uintptr_t)((NMAX + 7) << 4);
     __CPROVER_assume(pub0 ? g_H < g_T : 1);
     slot_spawn(&s, g_spawned);
+#ifdef RELOC_ALLOC
+    __CPROVER_assume(g_allocs >= 1);
+#endif
     OBLIGATION(s.published && !s.locked && s.head < s.tail && s.tail <= s.my_task_pool_size, "C01.spawn: after spawn the pool is published, unlocked and non-empty");
     OBLIGATION(s.task_pool_ptr[s.tail - 1] == g_spawned, "C01.spawn: the spawned task is the topmost entry of the pool");
     if (g_allocs != 0 || s.head != g_H || s.tail != g_T + 1) OBLIGATION(!live_k || (g_pos < s.tail - 1 && g_new[g_pos] == TASKPTR(g_k)), "C01.once: a spawn that relocates the pool loses none of the tasks already in it");
